@@ -17,7 +17,7 @@ EXTENDS Link
 
 MonInit == [viol |-> <<>>, sc |-> "", cfg |-> [discard |-> TRUE, datagram |-> FALSE], kinds |-> <<>>,
             stream |-> <<>>, pos |-> 0, got |-> <<>>, closed |-> FALSE, dgram |-> <<>>]
-V(m, reason, l, ctx) == [m EXCEPT !.viol = Append(@, [prop |-> "C06", reason |-> reason, line |-> l, sc |-> m.sc, ctx |-> ctx])]
+V(m, reason, l, ctx) == [m EXCEPT !.viol = IF Len(@) >= 300 THEN @ ELSE Append(@, [prop |-> "C06", reason |-> reason, line |-> l, sc |-> m.sc, ctx |-> ctx])]
 
 
 \* datagram mode reference: frames wholly inside one datagram, leftmost-first inside it
